@@ -12,6 +12,7 @@ import Driver.BufSync
 import Driver.Delay
 import Driver.RDL
 import Driver.Listener
+import Driver.Life
 
 def main (args : List String) : IO UInt32 := do
   match args with
@@ -30,4 +31,5 @@ def main (args : List String) : IO UInt32 := do
   | ["delay"] => Driver.runComponent Driver.Delay.comp; return 0
   | ["rdl"] => Driver.runComponent Driver.RDL.comp; return 0
   | ["listener"] => Driver.runComponent Driver.Listener.comp; return 0
+  | ["life"] => Driver.runComponent Driver.Life.comp; return 0
   | _ => IO.eprintln "usage: vdrv <component> [args]"; return 2
